@@ -99,7 +99,7 @@ def gen(seed, tier):
         'key': key,
         'pending_key': 'validated' if dialect == 'validated' else 'applied',
         'pending_pairs': dialect == 'applied+pairs',
-        'counter0': rng.choice([0, 10, 10, 125, 126, 127, 16381, 16382, 16383, 2**21 - 2, 2**31, 2**64 + 5]),
+        'counter0': rng.choice([0, 8, 9, 10, 10, 97, 98, 99, 125, 126, 127, 998, 16381, 16382, 16383, 2**21 - 2, 2**31, 2**63 - 2, 2**64 - 2, 2**64 + 5]),
         'baker': baker,
         'block_delay_s': rng.choice([1, 4, 8, 15]),
         'bake_jitter_ms': [rng.choice([0, 300, 2500]) for _ in range(3)],
